@@ -50,7 +50,7 @@ Inductive op :=
 | OAdvance (dt : Z)
 | ORecQ (k : qkey) (ev : list N) (obs : option entry)            (* Store.RecordFailure; obs = slot of the key afterwards *)
 | ORecZ (qclass : N) (zone : option name) (ev : list N) (obs : option entry)   (* Store.RecordZoneFailure *)
-| OSetResp (k : qkey) (failure : bool) (ev : list N) (obs : option entry)      (* Store.SetFromResponse / Cache.Set, unscoped *)
+| OSetResp (k : qkey) (failure : bool) (ev : list N) (obs : option entry)      (* Store.SetFromResponse / SetFromResponseScoped; obs = the global-audience slot *)
 | OLookup (k : qkey) (obs : option entry)                           (* Store.LookupFailure *)
 | OLookupWire (n : name) (qtype qclass : N) (cd : bool) (obs : option entry)   (* Store.LookupFailureWire *)
 | ORetryKey (k : qkey) (obs : option N)                             (* Store.FailureRetryKey *)
@@ -63,7 +63,7 @@ Inductive op :=
 | OFcResetZ (z : zkey) (obs : bool)                                 (* FailureCache.ResetZone *)
 | OFcResetMatching (k : qkey) (obs : Z)                             (* FailureCache.ResetMatching *)
 | OFcPurge (n : name) (qtype qclass : N) (obs : Z)                  (* FailureCache.PurgeQuestion *)
-| OPlant (h : N) (e : entry) (ev : list N).                         (* entries.Add(h, e): a colliding writer *)
+| OPlant (h : N) (e : entry) (own : bool) (ev : list N).            (* entries.Add(h, e): a colliding writer; own = h is e's real slot *)
 
 (* a request-local cause as the pipeline driver injects it *)
 Inductive pdown :=
@@ -72,6 +72,8 @@ Inductive pdown :=
 | PDTrunc.
 Inductive pstep :=
 | PAdvance (dt : Z)
+  (* every answer in the answer cache has lived out its TTL (the driver removes them) *)
+| PExpireAnswers
   (* one client query through Cache.ServeDNS with a stub downstream:
      edns = client sent OPT; obs = (rcode, EDE code if any, downstream calls, FailureLen afterwards) *)
 | PQuery (k : qkey) (edns : bool) (d : pdown) (rcode : N) (ede : option N) (calls : Z) (flen : Z).
@@ -89,11 +91,11 @@ Inductive case :=
 | CaseZoneAdmit (zone_empty best_effort ctx_err : bool) (x : cause) (obs : bool)
   (* pipeline: cache.New(cfg) with failure TTL settings (raw, 0 = default), rfc9520 switch;
      eff_* = what the constructed FailureCache ended up with *)
-| CasePipe (raw_size raw_init raw_max : Z) (disabled : bool) (eff_init eff_max : Z)
+| CasePipe (raw_size raw_init raw_max : Z) (disabled exact : bool) (eff_init eff_max : Z)
            (tab : list (qkey * N)) (steps : list pstep) (final : list (N * entry))
   (* expired-zone probe cohort: n concurrent queries for distinct names below one
      expired zone failure; observed downstream calls and how many got SERVFAIL+EDE13 *)
-| CaseProbe (tab : list (qkey * N)) (zone : name) (qclass : N) (names : list name) (keys : list (option N)) (calls : Z) (cached : Z).
+| CaseProbe (tab : list (qkey * N)) (zone : name) (qclass : N) (names : list (name * bool)) (keys : list (option N)) (calls : Z) (cached : Z).
 
 (* ---------------------------------------------------------------- model run *)
 Section Run.
@@ -121,8 +123,12 @@ Section Run.
                   | None => match obs with None => true | _ => false end
                   end)
     | OSetResp k failure ev obs =>
+        (* setFromResponseWithKey: a scoped write neither records nor resets anything
+           (it has no source prefix to name the audience with) *)
+        let scoped := match norm_scope (qk_scope k) with Some _ => true | None => false end in
         let k := unscoped k in
-        let s1 := if failure then fst (fst (st_record_failure H c s k prov_response now))
+        let s1 := if scoped then s
+                  else if failure then fst (fst (st_record_failure H c s k prov_response now))
                   else st_reset_question H s k in
         let s2 := evict ev s1 in
         (s2, now, opt_entry_eqb (peek_q s2 k) obs)
@@ -142,7 +148,7 @@ Section Run.
         let '(m, n) := fc_reset_matching H (s_map s) k in (mk_store m (s_disabled s), now, n =? obs)
     | OFcPurge n t cl obs =>
         let '(m, cnt) := fc_purge (s_map s) n t cl in (mk_store m (s_disabled s), now, cnt =? obs)
-    | OPlant h e ev => (evict ev (mk_store (mset h e (s_map s)) (s_disabled s)), now, true)
+    | OPlant h e _ ev => (evict ev (mk_store (mset h e (s_map s)) (s_disabled s)), now, true)
     end.
 
   Fixpoint run_ops (s : store) (now : Z) (ops : list op) : store * Z * bool :=
@@ -199,6 +205,7 @@ Fixpoint run_psteps (H : qkey -> N) (c : cfg) (s : store) (pos : list pkey) (now
   match steps with
   | [] => (s, true)
   | PAdvance dt :: r => run_psteps H c s pos (now + dt) r
+  | PExpireAnswers :: r => run_psteps H c s [] now r
   | PQuery k edns d rcode ede calls flen :: r =>
       let '(s1, pos1, a) := run_pstep H c s pos now k d in
       let ok :=
@@ -249,18 +256,20 @@ Definition check_case (x : case) : bool :=
       cfg_validb c && ok && same_map (s_map s) final
   | CaseAdmit r obs => Bool.eqb (cacheable_failure r) obs
   | CaseZoneAdmit ze be ce x obs => Bool.eqb (zone_failure_admitted ze be ce x) obs
-  | CasePipe raw_size raw_init raw_max disabled eff_init eff_max tab steps final =>
+  | CasePipe raw_size raw_init raw_max disabled exact eff_init eff_max tab steps final =>
       let c := pipe_cfg raw_size raw_init raw_max in
       (c_init c =? eff_init) && (c_max c =? eff_max) &&
       let '(s, ok) := run_psteps (tab_H tab) c (mk_store [] disabled) [] 0 steps in
-      ok && same_map (s_map s) final
+      ok && (if exact then same_map (s_map s) final else true)
   | CaseProbe tab zone qclass names keys calls cached =>
       (* state: one expired zone failure; every name below it gets the zone's retry key *)
       let H := tab_H tab in
       let c := mk_cfg default_initial_ttl default_max_ttl in
-      let '(m, _, _) := fc_record_zone H c [] (mk_zkey zone qclass) prov_authority 0 in
+      let '(m0, _, _) := fc_record_zone H c [] (mk_zkey zone qclass) prov_authority 0 in
+      (* members flagged true also have an (expired) failure of their own *)
+      let m := fold_left (fun (acc : fmap) (nb : name * bool) => if snd nb then fst (fst (fc_record_question H c acc (mk_qkey (fst nb) 1 qclass false None) prov_response 0)) else acc) names m0 in
       let now := c_init c + 1 in
-      let want := map (fun n => fc_retry_key H m (mk_qkey n 1 qclass false None) now) names in
+      let want := map (fun nb : name * bool => fc_retry_key H m (mk_qkey (fst nb) 1 qclass false None) now) names in
       (length want =? length keys)%nat &&
       forallb (fun p => opt_N_eqb (fst p) (snd p)) (combine want keys) &&
       (calls =? 1) && (cached =? Z.of_nat (length names) - 1)
@@ -309,7 +318,7 @@ Definition spec_record (init max : Z) (l : ledger) (now : Z) (K : ekey) (obs : o
   end.
 
 (* a lookup for question K at time now returned [obs] *)
-Definition spec_hit (max : Z) (l : ledger) (now : Z) (K : qkey) (obs : option entry) : bool :=
+Definition spec_hit (pl : list entry) (max : Z) (l : ledger) (now : Z) (K : qkey) (obs : option entry) : bool :=
   match obs with
   | None => true
   | Some e =>
@@ -319,10 +328,10 @@ Definition spec_hit (max : Z) (l : ledger) (now : Z) (K : qkey) (obs : option en
       | EZ z => is_suffix (zk_zone z) (qk_name K) && (zk_class z =? qk_class K)%N
       | EOther => false
       end &&
-      match lget (e_key e) l with
-      | Some (ra, s, _) => (ra =? e_retry e) && (s =? e_streak e)%N
-      | None => false
-      end
+      (match lget (e_key e) l with
+       | Some (ra, s, _) => (ra =? e_retry e) && (s =? e_streak e)%N
+       | None => false
+       end || existsb (entry_eqb e) pl)
   end.
 
 Definition covers_reset (K : qkey) (x : ekey) : bool :=
@@ -338,7 +347,7 @@ Definition purge_covers (n : name) (t cl : N) (x : ekey) : bool :=
   | EOther => false
   end.
 
-Definition spec_op (init max : Z) (disabled : bool) (st : ledger * Z) (o : op) : option (ledger * Z) :=
+Definition spec_op (pl : list entry) (init max : Z) (disabled : bool) (st : ledger * Z) (o : op) : option (ledger * Z) :=
   let '(l, now) := st in
   if disabled then
     (* rfc9520 off: nothing is recorded, nothing is served *)
@@ -348,7 +357,7 @@ Definition spec_op (init max : Z) (disabled : bool) (st : ledger * Z) (o : op) :
         match obs with None => Some st | Some _ => None end
     | ORetryKey _ obs => match obs with None => Some st | Some _ => None end
     | OLen obs => if obs =? 0 then Some st else None
-    | OPlant _ _ _ => None          (* the driver never plants with the switch off *)
+    | OPlant _ _ _ _ => None        (* the driver never plants with the switch off *)
     | _ => Some st
     end
   else
@@ -364,6 +373,18 @@ Definition spec_op (init max : Z) (disabled : bool) (st : ledger * Z) (o : op) :
       end
   | OSetResp k failure _ obs =>
       let K := norm_qkey (mk_qkey (qk_name k) (qk_type k) (qk_class k) (qk_cd k) None) in
+      if match norm_scope (qk_scope k) with Some _ => true | None => false end then
+        (* an audience-scoped write must not touch the global audience's state *)
+        match obs with
+        | Some e => if ekey_eqb (e_key e) (EQ K) then
+                      match lget (EQ K) l with
+                      | Some (ra, s, _) => if (ra =? e_retry e) && (s =? e_streak e)%N then Some st else None
+                      | None => if existsb (entry_eqb e) pl then Some st else None
+                      end
+                    else Some st
+        | None => Some st
+        end
+      else
       if failure then
         match spec_record init max l now (EQ K) obs with Some l' => Some (l', now) | None => None end
       else
@@ -372,9 +393,9 @@ Definition spec_op (init max : Z) (disabled : bool) (st : ledger * Z) (o : op) :
         | Some e => if ekey_eqb (e_key e) (EQ K) then None else Some (ldel_if (ekey_eqb (EQ K)) l, now)
         | None => Some (ldel_if (ekey_eqb (EQ K)) l, now)
         end
-  | OLookup k obs => if spec_hit max l now (norm_qkey k) obs then Some st else None
+  | OLookup k obs => if spec_hit pl max l now (norm_qkey k) obs then Some st else None
   | OLookupWire n t cl cd obs =>
-      if spec_hit max l now (mk_qkey (canon_name n) t cl cd None) obs then Some st else None
+      if spec_hit pl max l now (mk_qkey (canon_name n) t cl cd None) obs then Some st else None
   | ORetryKey _ _ => Some st
   | OClearZone qclass zone =>
       match zone with
@@ -386,32 +407,36 @@ Definition spec_op (init max : Z) (disabled : bool) (st : ledger * Z) (o : op) :
   | OResetMatching k | OFcResetMatching k _ => Some (ldel_if (covers_reset (norm_qkey k)) l, now)
   | OPurge n t cl | OFcPurge n t cl _ => Some (ldel_if (purge_covers (canon_name n) t cl) l, now)
   | OLen obs => if 0 <=? obs then Some st else None
-  | OPlant _ e _ =>
-      (* a colliding writer's entry is itself a recorded failure of ITS key *)
+  | OPlant _ e own _ =>
+      (* a state written into its own slot replaces that key's history; a colliding
+         writer's state in a foreign slot is remembered apart (it is a failure of ITS
+         key only, and no lookup of the slot's key may ever return it) *)
       match e_key e with
       | EOther => Some st
-      | K => Some (lset K (e_retry e, e_streak e, max) l, now)
+      | K => if own then Some (lset K (e_retry e, e_streak e, max) l, now) else Some st
       end
   end.
+Definition foreign_plants (ops : list op) : list entry :=
+  flat_map (fun o => match o with OPlant _ e false _ => [e] | _ => [] end) ops.
 
-Fixpoint spec_ops (init max : Z) (disabled : bool) (st : ledger * Z) (ops : list op) : option (ledger * Z) :=
+Fixpoint spec_ops (pl : list entry) (init max : Z) (disabled : bool) (st : ledger * Z) (ops : list op) : option (ledger * Z) :=
   match ops with
   | [] => Some st
-  | o :: r => match spec_op init max disabled st o with
-              | Some st' => spec_ops init max disabled st' r
+  | o :: r => match spec_op pl init max disabled st o with
+              | Some st' => spec_ops pl init max disabled st' r
               | None => None
               end
   end.
 
 (* every retained state is a recorded failure with the recorded bound *)
-Definition spec_final (l : ledger) (final : list (N * entry)) : bool :=
+Definition spec_final (pl : list entry) (l : ledger) (final : list (N * entry)) : bool :=
   forallb (fun he =>
     match e_key (snd he) with
     | EOther => true
     | K => match lget K l with
            | Some (ra, s, _) => (ra =? e_retry (snd he)) && (s =? e_streak (snd he))%N
            | None => false
-           end
+           end || existsb (entry_eqb (snd he)) pl
     end) final.
 
 (* -------- pipeline oracle: closed-form envelope over what the client saw *)
@@ -440,6 +465,7 @@ Fixpoint spec_psteps (init max : Z) (disabled : bool) (l : pledger) (pos : list 
   match steps with
   | [] => true
   | PAdvance dt :: r => spec_psteps init max disabled l pos (now + dt) r
+  | PExpireAnswers :: r => spec_psteps init max disabled l pos now r
   | PQuery k edns d rcode ede calls flen :: r =>
       let K := norm_qkey k in
       let ede13 := opt_N_eqb ede (Some ede_cached_error) in
@@ -493,13 +519,13 @@ Definition spec_case (x : case) : bool :=
       else true
   | CaseHist init max disabled tab ops final =>
       (spec_floor <=? init) && (init <=? max) && (max <=? spec_ceiling) &&
-      match spec_ops init max disabled ([], 0) ops with
-      | Some (l, _) => if disabled then match final with [] => true | _ => false end else spec_final l final
+      match spec_ops (foreign_plants ops) init max disabled ([], 0) ops with
+      | Some (l, _) => if disabled then match final with [] => true | _ => false end else spec_final (foreign_plants ops) l final
       | None => false
       end
   | CaseAdmit r obs => if request_local r then negb obs else true
   | CaseZoneAdmit ze be ce x obs => if ze || be || ce || cause_local x then negb obs else true
-  | CasePipe raw_size raw_init raw_max disabled eff_init eff_max tab steps final =>
+  | CasePipe raw_size raw_init raw_max disabled exact eff_init eff_max tab steps final =>
       (spec_floor <=? eff_init) && (eff_init <=? eff_max) && (eff_max <=? spec_ceiling) &&
       spec_psteps eff_init eff_max disabled [] [] 0 steps &&
       (if disabled then match final with [] => true | _ => false end else true)
